@@ -1,10 +1,13 @@
 import MoSql.Gen.Graph
 import MoSql.Ref
 import MoSql.Lemmas.SkipProps
+import MoSql.Lemmas.PegGap
+import MoSql.Lemmas.PegExample
 /-!
 C09 — whitespace, comments, keyword case, optional AS and a trailing semicolon never change the tree.
-Model: `MoSql.Skip` (the comment-aware whitespace engine); structural facts of the current grammar
-graph: `MoSql.Gen.Graph` (regenerated on every run).
+Models: `MoSql.Skip` (the comment-aware whitespace engine) and `MoSql.Peg` (the recogniser engine the grammar runs on:
+where `And` / `Many` skip, ordered and longest choice, optional parts, lookaheads, terminals); structural facts of
+the current grammar graph: `MoSql.Gen.Graph` (regenerated on every run).
 -/
 namespace MoSql.Props.C09
 open MoSql MoSql.Skip
@@ -41,6 +44,57 @@ example : Filler " \n-- c\n /* x*y **/ # z\n\t".toList ∧ stopsHere "BY a".toLi
   exact .hash " z".toList _ (by decide) (.white '\t' _ (by decide) .nil)
 
 example : skip " \n-- c\n /* x*y **/ # z\n\tBY a".toList = "BY a".toList := by decide
+
+
+/-! ### the recogniser engine: what stands in a gap does not matter -/
+open MoSql.Peg in
+/-- **Engine simulation** (any grammar, any nesting depth, any fuel): when the places of two texts correspond (`Rc`
+where a match is tried, `Re` where one ends), the whitespace engines map ends to places, lengths compare alike and
+every terminal of the grammar behaves alike on corresponding places, the engine answers alike on both texts. -/
+theorem engine_simulation {E : Env} {Rc Re : Str → Str → Prop} {P : Term → Bool} {Q : Nat → Bool}
+    (h : Sim E Rc Re P Q) (hrules : ∀ i, G.wf P Q (E.rule i) = true) (fuel : Nat) (g : G) (hg : G.wf P Q g = true)
+    (x x' : Str) (hx : Rc x x') : ResRel Re (run E fuel g x) (run E fuel g x') :=
+  run_sim h hrules fuel g x x' hg hx
+
+open MoSql.Peg in
+/-- **Gap invariance of a whole parse**: two texts that differ only in what fills ONE gap (`pre ++ f ++ post` and
+`pre ++ f' ++ post`, both fillers non-empty) get the same answer — the same tokens, or both a failure — from
+`Parser.parse_string`, with or without `parse_all`, provided (`GapHyp`) every whitespace engine of the grammar skips
+either filler the same way and no terminal tried in front of the gap sees which filler follows. -/
+theorem gap_invariance {E : Env} {f f' post : Str} {goodC goodE : Str → Prop} {P : Term → Bool} {Q : Nat → Bool}
+    (h : GapHyp E f f' post goodC goodE P Q) (hrules : ∀ i, G.wf P Q (E.rule i) = true)
+    (fuel ws : Nat) (hws : Q ws = true) (g : G) (hg : G.wf P Q g = true) (parseAll : Bool)
+    (pre : Str) (hpre : goodE pre) :
+    (parseTop E fuel ws g parseAll (pre ++ (f ++ post))).outcome
+      = (parseTop E fuel ws g parseAll (pre ++ (f' ++ post))).outcome :=
+  outcome_eq_of_rel (parseTop_sim (gap_sim h) hrules fuel ws hws g hg parseAll _ _ (Or.inl ⟨pre, hpre, rfl, rfl⟩))
+
+open MoSql.Peg in
+/-- at the gap itself the comment-aware engine discharges the skipping hypothesis for ANY two fillers (white
+characters and terminated comments in any mixture) in front of a token -/
+theorem comment_engine_at_the_gap (f f' post : Str) (good : Str → Prop) (hf : Filler f) (hf' : Filler f')
+    (hp : stopsHere post = true) :
+    GapRel f f' post good (skip ([] ++ (f ++ post))) (skip ([] ++ (f' ++ post))) :=
+  comment_skip_at_gap f f' post good hf hf' hp
+
+/-- the engines never move backwards (a hypothesis of `GapHyp`, here for the comment-aware engine) -/
+theorem comment_engine_moves_forward (x : List Char) : (skip x).length ≤ x.length := skip_le x
+
+/-- a terminal never hands back more text than it was given (used behind the gap) -/
+theorem terminal_moves_forward (t : Peg.Term) (x s r : Peg.Str) (h : Peg.matchTerm t x = some (s, r)) : r.length ≤ x.length :=
+  Peg.matchTerm_le t x s r h
+
+/-- the hypotheses of `gap_invariance` are met by a real grammar and text — `SELECT name (, name)*` on
+`select a<gap>, b` with the gap filled by a blank or by a block comment and a line break — and the common answer
+is a match, not a failure -/
+example :
+    (Peg.parseTop Peg.Example.E 20 2 Peg.Example.g true "select a , b".toList).outcome
+      = (Peg.parseTop Peg.Example.E 20 2 Peg.Example.g true "select a/*c*/\n, b".toList).outcome :=
+  gap_invariance Peg.Example.hyp (fun _ => rfl) 20 2 rfl Peg.Example.g (by decide) true Peg.Example.pre (Or.inl rfl)
+
+example :
+    (Peg.parseTop Peg.Example.E 20 2 Peg.Example.g true "select a/*c*/\n, b".toList).outcome
+      = some (some [.leaf "select".toList, .leaf "a".toList, .leaf ",".toList, .leaf "b".toList]) := by rfl
 
 /-- Tie A: the engines found in the current grammar graphs are the ones the model was written against -/
 theorem engines_pinned : (Gen.wsEngines == Ref.wsEngines) = true := by decide
